@@ -19,6 +19,12 @@ TASKS = {"DirectoryTreeSignatureTask": ("makeDirectoryTreeSignature", "directory
          "DirectoryTreeStructureSignatureTask": ("makeDirectoryTreeStructureSignature", "directoryStructureSignatureValue")}
 
 
+def bf_pre(f):
+    if not hasattr(f, "_bf_assign"):
+        f._bf_assign = BranchFacts(f, kill="assign")
+    return f._bf_assign
+
+
 def run(ctx):
     prog, rep = ctx.prog, ctx.report
 
@@ -38,6 +44,19 @@ def run(ctx):
                 "the signature does not start from the path and the directory listing value", f)
         txt_in = " ".join(expr_str(c) for c in inside)
         r.check("info.value" in txt_in, "%s|child-value-folded" % task, "", "child node values are not folded", f)
+        if task == "DirectoryTreeSignatureTask":
+            # with exclusion filters, names that match are hidden at every depth: the raw stat record of a child *directory* (its
+            # modification time changes whenever an entry - hidden or not - is added to or removed from it) must not reach the fold
+            vf = [c for c in inside if "info.value" in expr_str(c)]
+            guarded = False
+            for c in vf:
+                st_ = bf_pre(f).at_node(c) or frozenset()
+                if any(("isDirectory" in a_ or "filters" in a_) for a_, _p in st_):
+                    guarded = True
+            has_filters = any(fl["n"] == "filters" for fl in prog.record(task).get("fields", []))
+            r.check(guarded or not has_filters, "%s|filtered-subdirectory-stat-not-folded" % task, "",
+                    "the child's whole node value is folded also for a sub-directory of a filtered tree: adding or removing an excluded name below the top level "
+                    "changes that directory's modification time and therefore the signature", f, vf[0] if vf else None)
         bf = BranchFacts(f, kill="assign")
         with_sig = [c for c in inside if sigfield in expr_str(c) or any(p and sigfield in a for a, p in (bf.at_node(c) or frozenset())) and "data" in expr_str(c)]
         nil = [c for c in inside if any((not p) and sigfield in a and "hasValue" in a for a, p in (bf.at_node(c) or frozenset()))]
